@@ -161,10 +161,10 @@ def scale_down(value_to_scale: PDDLFunction, scale_factor: float) -> None:
 
 
 COMPARISON_OPERATORS = {
-    "=": lambda x, y: math.isclose(x, y, abs_tol=EPSILON),
-    "!=": lambda x, y: not math.isclose(x, y, abs_tol=EPSILON),
-    "<=": lambda x, y: math.isclose(x, y, abs_tol=EPSILON) or (x < y),
-    ">=": lambda x, y: math.isclose(x, y, abs_tol=EPSILON) or (x > y),
+    "=": lambda x, y: math.isclose(x, y, rel_tol=0.0, abs_tol=EPSILON),
+    "!=": lambda x, y: not math.isclose(x, y, rel_tol=0.0, abs_tol=EPSILON),
+    "<=": lambda x, y: math.isclose(x, y, rel_tol=0.0, abs_tol=EPSILON) or (x < y),
+    ">=": lambda x, y: math.isclose(x, y, rel_tol=0.0, abs_tol=EPSILON) or (x > y),
     ">": lambda x, y: x > y,
     "<": lambda x, y: x < y,
 }
